@@ -114,10 +114,14 @@ def run_case(ctx, g, rng):
     vals = rng.sample(allu + ["y1/", "y2/", "x1/"], k=len(keys))
     m = dict(zip(keys, vals))
     # the converter may have a past (registered record by record, grown through merges) and any delimiter
-    c, how = gen.build(api, recs, d, rng)
+    c, how = gen.build(api, recs, d, rng, share_lists=True)
     S.counters[f"wl:build:{how}"] += 1
     f = curies.remap_uri_prefixes if mode == "remap_uri_prefixes" else curies.rewire
     o = call(f, c, dict(m))
+    # the same call again on the same converter object, and the other operation after it: every call is judged on its own
+    call(f, c, dict(m))
+    if rng.random() < 0.3 and mode == "rewire":
+        call(curies.remap_uri_prefixes, c, {k: v for k, v in zip(rng.sample(allu, k=min(2, len(allu))), ["y1/", "x1/"])})
 
     def kcls(x):
         if mode == "rewire":
